@@ -57,39 +57,42 @@ func runC08(c *core.Ctx) {
 		// strategy -> representation kind ("dynamic" when not a constant)
 		table := map[string]string{}
 		if kindFn != nil {
-			for _, ret := range core.Returns(kindFn) {
-				k := "dynamic"
-				if cv := core.ConstVal(ret.Results[0]); cv != nil {
-					k = kname[cv.ExactString()]
+			// for every type-switch arm (comma-ok assertion to a schema strategy type): follow its ok edge along
+			// straight-line code to the return it leads to; several types sharing one arm all lead to the same return
+			for _, blk := range kindFn.Blocks {
+				ifi := core.BlockIf(blk)
+				if ifi == nil {
+					continue
 				}
-				// dominating type-assert-ok edges
-				for d := ret.Block(); d != nil; d = d.Idom() {
-					id := d.Idom()
-					if id == nil {
+				e, ok := ifi.Cond.(*ssa.Extract)
+				if !ok || e.Index != 1 {
+					continue
+				}
+				ta, ok := e.Tuple.(*ssa.TypeAssert)
+				if !ok {
+					continue
+				}
+				nt := namedOfType(ta.AssertedType)
+				if nt == nil || nt.Obj().Pkg() == nil || core.RelPkg(nt.Obj().Pkg().Path()) != "schema" {
+					continue
+				}
+				k := "dynamic"
+				cur := blk.Succs[0]
+				for steps := 0; steps < 8 && cur != nil; steps++ {
+					last := cur.Instrs[len(cur.Instrs)-1]
+					if ret, isRet := last.(*ssa.Return); isRet {
+						if cv := core.ConstVal(ret.Results[0]); cv != nil {
+							k = kname[cv.ExactString()]
+						}
 						break
 					}
-					ifi := core.BlockIf(id)
-					if ifi == nil {
+					if _, isJump := last.(*ssa.Jump); isJump {
+						cur = cur.Succs[0]
 						continue
 					}
-					e, ok := ifi.Cond.(*ssa.Extract)
-					if !ok || e.Index != 1 {
-						continue
-					}
-					ta, ok := e.Tuple.(*ssa.TypeAssert)
-					if !ok {
-						continue
-					}
-					nt := namedOfType(ta.AssertedType)
-					if nt == nil || core.RelPkg(nt.Obj().Pkg().Path()) != "schema" {
-						continue
-					}
-					if core.EdgeDominates(core.Edge{From: id, Succ: 0}, ret.Block()) {
-						if _, seen := table[nt.Obj().Name()]; !seen {
-							table[nt.Obj().Name()] = k
-						}
-					}
+					break // branches: the kind is computed, i.e. dynamic
 				}
+				table[nt.Obj().Name()] = k
 			}
 		}
 		if len(table) < 6 {
